@@ -528,3 +528,17 @@ class StmtGen(Gen):
             else:
                 self.scope.vars = vars_before
         return self.prog
+
+
+def wrap_in_function(prog, name="haupt"):
+    """move all top-level statements into one function (so that every variable is a LOCAL) and call it;
+    only possible when the program declares no functions of its own (they could not see the variables any more)"""
+    if any(isinstance(it, FuncDecl) for it in prog.items):
+        return False
+    decls = [it for it in prog.items if isinstance(it, StructDecl)]
+    stmts = [it for it in prog.items if not isinstance(it, StructDecl)]
+    if not stmts:
+        return False
+    f = FuncDecl(name, [], NICHTS, stmts)
+    prog.items[:] = decls + [f, ExprStmt(Call(f, [], NICHTS))]
+    return True
